@@ -819,9 +819,28 @@ def spec_check(ctx, budget):
         mode, ops = gen_history(rng, kind, sfx, pool, nmax=40 if i % 3 else 12)
         cases.append((kind, sfx, mode, [op for op in ops if op[0] != "obs"]))
     seen_sigs = {}
+    # which histories satisfy the hypotheses (hyg, safeHist) of store_refines_dict_partial for the code variant under test
+    covered = {}
+    drv = getattr(ctx, "driver", None)
+    if drv is not None:
+        cfg = detect_cfg(ctx)
+        idx = [i for i, c in enumerate(cases) if c[0] == "dir"]
+        reqs = []
+        for i in idx:
+            kind, sfx, mode, ops = cases[i]
+            ids = sorted({op[1] for op in ops if op[0] in ("w", "nc", "drop") and op[1]})
+            reqs.append(("safe", dict(exact=cfg["exact"], rocheck=cfg["rocheck"], sfx=sfx, mode=mode, ids=ids, ops=ops)))
+        for i, r in zip(idx, drv.batch(reqs)):
+            covered[i] = bool(r.get("hyg") and r.get("safe"))
     for i, (kind, sfx, mode, ops) in enumerate(cases):
         f, st = check_history(ctx, kind, sfx, mode, _with_obs(ops), tag=f"s{i}")
         out["evaluations"] += 1
+        if i in covered:
+            bump(out, "dir_history_satisfies_theorem_hypotheses", covered[i])
+            if covered[i] and f is not None and any(a.split(":")[2] != "c-md5-missing" for a in sig_atoms(f["sig"])):
+                # theorem + model say this history refines the dictionary (up to a missing completed md5)
+                add_failure(out, "corr", "hypotheses of store_refines_dict_partial hold for this history but the real store differs from the dictionary",
+                            f["input"], f["expected"], f["got"], confirmed=False, sig="theorem-hypotheses-vs-real:" + f["sig"])
         bump(out, "spec_stream", "exhaustive-small" if i < small_n else "random")
         bump(out, "spec_store", kind)
         if st["ops"] - st["rejected"] >= 4:
